@@ -8,25 +8,25 @@ def cases(rng, tier):
     g = gen.Gen(rng, max_depth=5 if tier == 'quick' else 6)
     for i in range(n):
         t = g.program()
-        yield Case(program=gen.render(t), stdin='', tag='typed', nontrivial=gen.size(t) >= 8)
+        yield Case(program=gen.render(t), stdin='', tag='typed', nontrivial=gen.size(t) >= 8, big=True)
     # closure-focused families
     for i in range(n // 5):
-        yield Case(program=closure_program(rng), tag='closure')
+        yield Case(program=closure_program(rng), tag='closure', big=True)
     # one enclosing closure called several times with different arguments: every inner function must
     # see the arguments of *its* defining call (static, computed and outermost-relative references)
     for i in range(n // 2):
-        yield Case(program=gen.render(scope_program(rng)), tag='scope', nontrivial=True)
+        yield Case(program=gen.render(scope_program(rng)), tag='scope', nontrivial=True, big=True)
     for i in range(n // 4):
-        yield Case(program=gen.render(fref_program(rng)), tag='fref', nontrivial=True)
+        yield Case(program=gen.render(fref_program(rng)), tag='fref', nontrivial=True, big=True)
     for i in range(n // 6):
-        yield Case(program=identity_program(rng), tag='fn-identity', nontrivial=True)
+        yield Case(program=identity_program(rng), tag='fn-identity', nontrivial=True, big=True)
     # every syntactic form at random (untyped): the model is the oracle, errors included
     for i in range(2 * n):
         t = gen.wild(rng, rng.randint(2, 5))
-        yield Case(program=gen.render(t), stdin="w1\nw2\n", tag='wild', nontrivial=gen.size(t) >= 8, timeout=2.0, fuel=400_000)
+        yield Case(program=gen.render(t), stdin="w1\nw2\n", tag='wild', nontrivial=gen.size(t) >= 8, timeout=2.0, fuel=400_000, big=True)
     for i in range(n // 2):
         t = scope_program(rng) if rng.random() < 0.5 else g.program()
-        yield Case(program=gen.render(bad_reference(rng, t)), tag='badref', nontrivial=True)
+        yield Case(program=gen.render(bad_reference(rng, t)), tag='badref', nontrivial=True, big=True)
 
 
 PRODUCERS = ["(ㄱ ㅎ)", "(ㄱㅇㄱ ㅎ)", "(ㄴ ㄷ ㄷㅎㄷ ㅎ)", "((ㄱ ㅎ) ㅎ)", "(ㄱㅇㄱ ㄱㅇㄱ ㄱㅎㄷ ㅎ)"]
